@@ -223,9 +223,12 @@ var _ network.Stream = (*c16Stream)(nil)
 // which address the server observed. Any other method is unused by the server (nil embedded interface).
 type c16ReqConn struct {
 	network.Conn
+	localPeer  peer.ID
 	remotePeer peer.ID
 	remoteAddr ma.Multiaddr
 }
+
+func (c *c16ReqConn) LocalPeer() peer.ID { return c.localPeer }
 
 func (c *c16ReqConn) RemotePeer() peer.ID           { return c.remotePeer }
 func (c *c16ReqConn) RemoteMultiaddr() ma.Multiaddr { return c.remoteAddr }
